@@ -143,7 +143,7 @@ func (r *Run) Counter(name string) int64 {
 func (r *Run) Sample(class string, v any) {
 	r.mu.Lock()
 	defer r.mu.Unlock()
-	if r.sampleClass[class] >= 1 || len(r.samples) >= 12 {
+	if r.sampleClass[class] >= 1 || len(r.samples) >= 24 {
 		return
 	}
 	r.sampleClass[class]++
